@@ -206,7 +206,13 @@ def finish(ctx, outcome, info=None):
 # --------------------------------------------------------------------------
 
 class Family:
-    def __init__(self, name, path_fn, expect=(), bounds=None, note=''):
+    def __init__(self, name, path_fn, expect=(), bounds=None, note='',
+                 conformance=True):
+        # conformance=False: passing paths of this family are not sampled
+        # for re-execution on the real application (used where the real-mode
+        # emulation of an injected fault is known to be weaker than the
+        # symbolic one, see DESIGN 11.11)
+        self.conformance = conformance
         self.name = name
         self.path_fn = path_fn
         self.expect = set(expect)    # outcome classes that must be reachable
@@ -268,6 +274,96 @@ def replay(family, v):
                        other=[w['clause'] for w in vs])
 
 
+_CONF_FAMS = []
+
+
+def _conformance_one(args):
+    """Translation validation per path (DESIGN 11.11): re-execute one
+    explored path symbolically, take a model of its path condition (exact
+    arithmetic), run the same harness with those values and decisions against
+    the real application on real SQLite, and compare the outcome."""
+    fi, prefix = args
+    fam = _CONF_FAMS[fi]
+    ctx = PathCtx(list(prefix))
+    PathCtx.cur = ctx
+    try:
+        out = fam.path_fn(ctx)
+    except BaseException as e:
+        return ('skip', 'symbolic re-execution raised %s' % type(e).__name__)
+    finally:
+        PathCtx.cur = None
+    if not out or out.get('violations'):
+        return ('skip', 'path has violations')
+    try:
+        r, values = concrete_model(ctx, z3.BoolVal(True), timeout_ms=10000)
+    except Exception as e:
+        return ('skip', 'model: %s' % e)
+    if r != 'sat':
+        return ('skip', 'no exact model (%s)' % r)
+    v = dict(values=values, choices=list(ctx.choices), clause='__none__')
+    ok, detail = replay(fam, v)
+    if isinstance(detail, str):
+        return ('fail', 'symbolic outcome %r; %s' % (out.get('outcome'),
+                                                     detail[:600]))
+    if detail.get('outcome') != out.get('outcome') or detail.get('other'):
+        # which conjuncts of the (exact) path condition do the values
+        # falsify?  none = the encoding and the real application disagree
+        sub = []
+        for name, var in ctx.vars.items():
+            if name in values and values[name] is not None:
+                v_ = values[name]
+                if var.sort() == z3.BoolSort():
+                    sub.append((var, z3.BoolVal(bool(v_))))
+                elif var.sort() == z3.IntSort():
+                    sub.append((var, z3.IntVal(int(v_))))
+                else:
+                    sub.append((var, z3.RealVal(str(v_))))
+        falsified = []
+        for c in ctx.pc:
+            try:
+                e = z3.simplify(z3.substitute(symex.exactify(c), *sub))
+                if z3.is_false(e):
+                    falsified.append(str(c).replace('\n', ' ')[:160])
+            except Exception:
+                pass
+        if falsified:
+            # the sample itself is invalid (the values are not a model of the
+            # exact path condition): nothing can be concluded from it
+            return ('skip', 'values falsify the path condition: %s'
+                    % falsified[:2])
+        return ('fail', 'symbolic outcome %r, real outcome %r, real '
+                'violations %s, decisions used %d of prefix %d, path '
+                'condition conjuncts falsified by the values: %s; values %s, '
+                'choices %s' % (
+                    out.get('outcome'), detail.get('outcome'),
+                    detail.get('other'), len(ctx.decisions), len(prefix),
+                    falsified[:4], values, list(ctx.choices)))
+    return ('ok', out.get('outcome'))
+
+
+def conformance(fams, picked, workers=16):
+    """picked: [(family index, prefix)] -> (n_ok, n_skipped, failures)"""
+    import multiprocessing as mp
+    from concurrent.futures import ProcessPoolExecutor
+    global _CONF_FAMS
+    _CONF_FAMS = fams
+    if not picked:
+        return 0, 0, []
+    ok = skipped = 0
+    fails = []
+    with ProcessPoolExecutor(max_workers=min(workers, len(picked)),
+                             mp_context=mp.get_context('fork')) as ex:
+        for (fi, prefix), (st, detail) in zip(
+                picked, ex.map(_conformance_one, picked, chunksize=1)):
+            if st == 'ok':
+                ok += 1
+            elif st == 'skip':
+                skipped += 1
+            else:
+                fails.append('%s: %s' % (fams[fi].name, detail))
+    return ok, skipped, fails
+
+
 def run_check(prop, families, level='model_checking', technique='',
               functions=(), assumptions=(), argv=None, quick_budget=150,
               thorough_budget=1500, extra_evidence=None, post=None):
@@ -303,6 +399,7 @@ def run_check(prop, families, level='model_checking', technique='',
     known_hit = {}
     inconclusive = []
     harness_errors = []
+    conf_picked = []
     solver_s = 0.0
     for fam in fams:
         left = budget - (time.time() - t0)
@@ -340,6 +437,33 @@ def run_check(prop, families, level='model_checking', technique='',
                      stats['queries'], stats['wall_s']), flush=True)
         if not stats['complete']:
             inconclusive.append('%s: exploration budget exhausted' % fam.name)
+        # conformance samples: per outcome class the path with the smallest
+        # decision prefix (deterministic), at most CONF_PER_FAMILY
+        by_oc = {}
+        for r in results:
+            if r.outcome in ('__engine__', '__harness_error__') or \
+                    r.violations:
+                continue
+            k = str(r.outcome)
+            if 'deadlock+rollback' in k:
+                # the real-mode emulation of a database-side rollback on
+                # single-connection SQLite is weaker than the symbolic one
+                continue
+            key = [str(x) for x in r.prefix]
+            lo, hi = by_oc.get(k, (None, None))
+            if lo is None or key < lo[0]:
+                lo = (key, r.prefix)
+            if hi is None or key > hi[0]:
+                hi = (key, r.prefix)
+            by_oc[k] = (lo, hi)
+        per = int(os.environ.get('VERIF_CONF_PER_FAMILY', '0') or 0) or \
+            (6 if tier == 'quick' else 20)
+        cand = [by_oc[k][0][1] for k in sorted(by_oc)] + \
+            [by_oc[k][1][1] for k in sorted(by_oc)
+             if by_oc[k][1][0] != by_oc[k][0][0]]
+        for pf in cand[:per]:
+            if getattr(fam, 'conformance', True):
+                conf_picked.append((fams.index(fam), pf))
         for r in results:
             if r.outcome in ('__engine__', '__harness_error__'):
                 harness_errors.append('%s: %s' % (fam.name, r.error))
@@ -407,6 +531,17 @@ def run_check(prop, families, level='model_checking', technique='',
                 % str(post_ev['disagreements'][:2])[:600])
     else:
         post_ev = None
+    # ---- conformance of the encoding: sampled passing paths re-run on the
+    # real application (skipped with VERIF_NO_CONFORMANCE=1)
+    conf = dict(sampled=0, agreed=0, skipped=0)
+    if os.environ.get('VERIF_NO_CONFORMANCE') != '1' and conf_picked:
+        tc = time.time()
+        n_ok, n_skip, fails = conformance(fams, conf_picked)
+        conf = dict(sampled=len(conf_picked), agreed=n_ok, skipped=n_skip,
+                    seconds=round(time.time() - tc, 1))
+        totals['replays'] += n_ok
+        for f in fails:
+            harness_errors.append('conformance: ' + f)
     # ---- verdict
     for kid, (k, famname, v) in known_hit.items():
         print('KNOWN-FINDING: property=%s %s [%s]' % (prop, k['what'], kid))
@@ -468,6 +603,11 @@ def run_check(prop, families, level='model_checking', technique='',
         cov['post'] = post_ev
     if xres:
         cov['solver_crosscheck'] = xres
+    cov['encoding_conformance'] = dict(
+        conf, what='passing paths (per family and outcome class, smallest '
+        'and largest decision prefix) re-executed with a model of their path condition '
+        'against the real application on real SQLite; the outcome must be '
+        'the one the symbolic execution computed')
     ev = dict(property_id=prop, tier=tier, seed=seed, level=level,
               coverage=cov, assumptions=list(assumptions),
               wall_s=round(wall, 2), violations=len(viol_reported))
